@@ -295,6 +295,20 @@ class CFG(object):
         for bj in j['blocks']:
             b = Block(bj)
             self.blocks[b.id] = b
+        # assertion failures are not program paths: prune the edges into `__assert_fail` blocks so that
+        # code after an assert() is not control dependent on the asserted condition
+        self.assert_blocks = set()
+        for b in self.blocks.values():
+            if not b.noreturn:
+                continue
+            for e in b.elems:
+                n = fn.nodes.get(e) if e is not None and e >= 0 else None
+                if n is not None and n.k in ('CallExpr',) and n.callee and n.callee.get('noreturn') and \
+                        n.callee['name'].startswith('__assert'):
+                    self.assert_blocks.add(b.id)
+        if self.assert_blocks:
+            for b in self.blocks.values():
+                b.succ = [None if s in self.assert_blocks else s for s in b.succ]
         for b in self.blocks.values():
             for s in b.succ:
                 if s is not None:
